@@ -1,6 +1,6 @@
 """Layer-3 correspondence: spy log, trace and live output of an instrumented queued chart
 (real `HsmWithQueues` with spied handlers) ↔ Lean `Instr` model; oracles for C19, C20, C21, C18."""
-import os, sys, json, re, datetime as _dt
+import random, os, sys, json, re, datetime as _dt
 import charts, leanrun, queue_corr
 from charts import mhsm, Event, Diverged
 
@@ -320,8 +320,51 @@ def deep_probe(run, depth=130):
     run.case(cj, nontrivial=True)
 
 
+def long_history_probe(run, focus, nsteps=560):
+    """histories longer than the 500-entry trace / spy rings (real sizes): a two-state toggle chart stepped `nsteps` times
+    with the live streams on; compared with the Lean model and counted: one live trace line per transition step"""
+    rng = run.rng
+    for clock in ("fine", "constant"):
+        c = charts.GenChart(3, {1: 0, 2: 1, 3: 1}, {1: {}, 2: {0: ("T", 3), 1: ("H", 0)}, 3: {0: ("T", 2)}}, {}, nsig=2)
+        ops = [(0, 2)]
+        expected = 1
+        for _ in range(nsteps):
+            sig = 0 if rng.random() < 0.9 else 1
+            ops += [(4, sig), (8, 0)]
+        caps = (250, 500, 500)
+        real, final, steps = run_real(c, {}, 500, caps, ops, clock=clock)
+        mo = leanrun.run_driver([encode(c, {}, 500, caps, ops)])[0]
+        cj = queue_corr.case_json(c, {}, 500, ops[:9], caps=list(caps), clock=clock)
+        cj["long_history"] = nsteps
+        run.traces_validated += 1
+        run.count("long history (%d steps, clock %s)" % (nsteps, clock))
+        body, mfinal = mo.split(" || ")
+        mf = dict(kv.split("=", 1) for kv in mfinal.split(" "))
+        lt = live_trace_tokens(final)
+        if real != body.split(" | ") or mf["full"] != final["full"] or mf["trace"] != final["trace"] or mf["livespy"] != final["livespy"] \
+                or mf["livetrace"] != lt:
+            run.disagree("spy / trace / live output over a history longer than the rings", cj,
+                         "live trace lines: impl %d, model %d" % (len(final["livetrace_raw"]), len(mf["livetrace"].split(",")) if mf["livetrace"] else 0), None)
+        # oracle: a step is a transition iff an entry ran; one live trace line for each and for the start
+        ntr = sum(1 for st in steps if st["op"][0] in (0, 8) and any(k == "en" for _, k in st["calls"]))
+        if len(final["livetrace_raw"]) != ntr:
+            run.violate("C21/live-trace-count", "%d transition steps (incl. start) over a history of %d steps produced %d live trace lines"
+                        % (ntr, nsteps, len(final["livetrace_raw"])), cj)
+        if focus == "C20" and len(final["trace_recs"]) != min(ntr, 500):
+            run.violate("C20/trace-ring", "%d transition steps left %d records in the 500-entry trace ring" % (ntr, len(final["trace_recs"])), cj)
+        run.case(cj, nontrivial=True)
+
+
 def replay(case):
     cc = case.get("case", case)
+    if "long_history" in cc:
+        class R:
+            rng = random.Random(0)
+            traces_validated = 0
+            def __getattr__(self, k):
+                return lambda *a, **kw: print(k, a[:2])
+        long_history_probe(R(), "C21", cc["long_history"])
+        return 0
     if "deep_chain" in cc:
         class R:
             def __getattr__(self, k):
